@@ -598,6 +598,9 @@ def fixed_cases():
     c.update(script='Y = X [-1]', f20=True)
     out.append(c)
     out.append(prog_case(None, [{'lhs': ['Y', 0], 'rhs': ['bin', '+', V('_x'), ['num', '1']]}]))                                                            # NEW: name mangling
+    # rejected / degenerate scripts: no expectation, only the model ties speak (K_parse: same exception class as the model)
+    out += [_raw(s) for s in ('2 = X', '{p} = X', 'Y = {0}', 'Y = }{', 'Y = {', 'Y = X[a]', 'Y = X[t]', 'if = 1', 'Y = X\nY = Z', 'Y = {X} + X', 'Y = X)',
+                              'Y[ 1 ] = X', ' Y = X', '`x = 1`', '```\nx = 1\n```\nY = X', 'Y = X\n\n', '', 'Y = 2e5 * X', 'Y = a < b > c', 'Y = X.T')]
     return out
 
 
@@ -787,7 +790,7 @@ def _raw_classes(s):
     """finding classes of a raw script, read off the text"""
     body = '\n'.join(ln.split('#')[0] for ln in s.splitlines())
     f20 = re.search(r'(?:%s|\}|>)[ \t]+\[' % IDENT, body) is not None
-    brace = re.search(r'[{}]', re.sub(r'\{\s*%s\s*\}' % IDENT, '', body)) is not None
+    brace = '{{' in body or '}}' in body          # doubled braces are str.format escapes; a stray single brace is a ParserError (no finding)
     called = set(re.findall(r'(?<![A-Za-z_0-9.])(%s)\s*\(' % IDENT, body))
     plain = set(re.findall(r'(?<![A-Za-z_0-9.])(%s)(?![A-Za-z_0-9.]|\s*\()' % IDENT, body))
     return f20, brace, bool(called & plain)
